@@ -271,16 +271,17 @@ pub fn eval<D: Dom>(c: &Case<D>, mode: Mode, o: &mut Out) -> Evaluated {
         // certificates evaluated by the model on the real automaton
         let which = match mode {
             Mode::C01 => "s",
-            Mode::C02 => "wc",
+            Mode::C02 => if D::NAME == "str" { "wct" } else { "wc" },
             Mode::C09 | Mode::C08 => "w",
             Mode::C17 | Mode::C05 => "",
-            _ => "wsc",
+            _ => if D::NAME == "str" { "wsct" } else { "wsc" },
         };
         if CERTS && !which.is_empty() {
             let mut want = vec![];
             if which.contains('w') { want.push("wf 1"); }
             if which.contains('s') { want.push("sound 1"); }
             if which.contains('c') { want.push("complete 1"); }
+            if which.contains('t') { want.push("tight 1"); }
             o.case(
                 sexp::l(vec![sexp::a("cert"), sexp::a(D::NAME), sexp::a(which), b.dump.clone(), sexp::list(&c.pats, D::pat_s), sexp::list(&b.present, |x| sexp::b(*x))]).to_string(),
                 format!("({})", want.join(" ")),
